@@ -31,6 +31,8 @@ from ..tlc import MachineryError
 
 CB_EVENTS = {"name", "load_begin", "load_end", "compute", "save_begin", "save_end"}
 FLAVOURS = ["pmap", "scan"]
+# key menus per flavour (crashkit.PMAP_KEYS / scan_table); "equal-str" is only run uninterrupted (known finding)
+MENUS = {"pmap": ["plain", "signed-tuples", "punct", "mixed", "slash"], "scan": ["range", "signed-grid", "signed-column"]}
 
 
 # ---------------------------------------------------------------------------------------------------
@@ -93,7 +95,7 @@ def run_scenario(sc: dict) -> dict:
         n = state["run"]
         ctl = base / f"ctl{n}"
         ctl.mkdir()
-        job = {"flavour": flavour, "nk": nk, "w": w, "cache": True, "cache_dir": str(base / "cache"),
+        job = {"flavour": flavour, "keys": sc.get("keys"), "nk": nk, "w": w, "cache": True, "cache_dir": str(base / "cache"),
                "ctl": str(ctl), "log": str(base / f"log{n}.jsonl"), "result": str(base / f"res{n}.json"),
                "kill": sc.get("kill", "group"), **(plan or {})}
         info = ck.spawn(job, timeout=20)
@@ -153,7 +155,7 @@ def run_scenario(sc: dict) -> dict:
                     "trace": events, "stats": stats, "spec_w": spec_w}
         stats["cuts"] += sum(1 for r in log if r["e"] == "cut")
         stats["fallback"] += sum(1 for r in log if r["e"] == "short")
-        obs = ck.observe_dir(str(base / "cache"), flavour, nk)
+        obs = ck.observe_dir(str(base / "cache"), flavour, nk, sc.get("keys"))
         stats["other_files"] += len(obs["other"])
         stats["partial_final"] += obs["files"].count("partial")
         events.append(_ev("crash"))
@@ -181,7 +183,7 @@ def run_inproc(sc: dict) -> dict:
     if base.exists():
         shutil.rmtree(base, ignore_errors=True)
     (base / "cache").mkdir(parents=True)
-    job = {"flavour": sc["flavour"], "nk": sc["nk"], "w": 0, "cache": True, "cache_dir": str(base / "cache"),
+    job = {"flavour": sc["flavour"], "keys": sc.get("keys"), "nk": sc["nk"], "w": 0, "cache": True, "cache_dir": str(base / "cache"),
            "ctl": str(base), "log": str(base / "log.jsonl"), "result": str(base / "res.json"), "steps": sc["steps"]}
     info = ck.spawn(job, timeout=90)
     log = ck.read_log(job["log"])
@@ -253,7 +255,9 @@ def inproc_scenarios(ctx: Ctx, payloads: list) -> list[dict]:
         for fl in FLAVOURS:
             for name, (w_run, w_rerun) in patterns.items():
                 steps = [{"op": o, "w": w_run if o == "run" else w_rerun if o == "rerun" else 0} for o in ops]
-                out.append({"id": f"p{len(out)}", "flavour": fl, "nk": 3, "ops": ops, "modes": name, "steps": steps,
+                menus = MENUS[fl]
+                out.append({"id": f"p{len(out)}", "flavour": fl, "keys": menus[len(out) % len(menus)], "nk": 3, "ops": ops,
+                            "modes": name, "steps": steps,
                             "dir": str(ctx.work / "inproc" / f"p{len(out)}")})
     return out
 
@@ -266,10 +270,10 @@ def clean_run(args: dict) -> dict:
         shutil.rmtree(base, ignore_errors=True)
     (base / "cache").mkdir(parents=True)
     flavour, nk, w = args["flavour"], args["nk"], args["w"]
-    out = {"flavour": flavour, "nk": nk, "w": w, "bad": None, "trace": []}
+    out = {"flavour": flavour, "keys": args.get("keys"), "nk": nk, "w": w, "bad": None, "trace": []}
 
     def job(n, cache):
-        return {"flavour": flavour, "nk": nk, "w": w, "cache": cache, "cache_dir": str(base / "cache"), "ctl": str(base),
+        return {"flavour": flavour, "keys": args.get("keys"), "nk": nk, "w": w, "cache": cache, "cache_dir": str(base / "cache"), "ctl": str(base),
                 "log": str(base / f"log{n}.jsonl"), "result": str(base / f"res{n}.json")}
 
     ref = args.get("reference")
@@ -301,7 +305,7 @@ def clean_run(args: dict) -> dict:
                 out["bad"] = {"what": "first cached run did not compute every key once", "computed": computed}
                 return out
             out["trace"].append(_ev("newrun"))
-            out["sizes"] = ck.observe_dir(str(base / "cache"), flavour, nk)["sizes"]
+            out["sizes"] = ck.observe_dir(str(base / "cache"), flavour, nk, args.get("keys"))["sizes"]
         elif computed:
             out["bad"] = {"what": "repeated run recomputed", "computed": computed}
             return out
@@ -368,6 +372,13 @@ def expand(payload: dict, flavour: str, w: int, sizes: list[int], rnd: random.Ra
             for v in variants for pv in pvars]
 
 
+def classify_clean(sc: dict, detail: dict) -> str | None:
+    """Uninterrupted runs: the only listed shape is a key set with two keys whose str() is EQUAL (1 and "1")."""
+    if sc.get("keys") == "equal-str" and "differs from the uncached run" in str(detail.get("what")):
+        return "keys-with-equal-str"
+    return None
+
+
 def classify(sc: dict, detail: dict) -> str | None:
     """Finding key from the shape of the failing scenario (DESIGN appendix D)."""
     if detail.get("what") == "run raised":
@@ -380,7 +391,7 @@ def classify(sc: dict, detail: dict) -> str | None:
 
 
 def scenario_key(sc: dict) -> str:
-    return json.dumps([sc["flavour"], sc["w"], [[stages_of(s), sorted(s["done"])] for s in sc["crashes"]], sc["offsets"],
+    return json.dumps([sc["flavour"], sc.get("keys"), sc["w"], [[stages_of(s), sorted(s["done"])] for s in sc["crashes"]], sc["offsets"],
                        sc.get("points")], sort_keys=True)
 
 
@@ -461,6 +472,7 @@ TRACE_CFG = """CONSTANTS
     Design = "any"
     Policy = "any"
     RenameAt = "closed"
+    LossyNames = FALSE
     Memo = FALSE
     MaxClear = 2
     MaxExtra = 2
@@ -502,6 +514,7 @@ def model_check(ctx: Ctx, rep: Report) -> dict:
         ("pinned", "CacheCrash_pinned.cfg", {"expect_violation": True, "workers": 2}, ""),
         ("earlyrename", "CacheCrash_earlyrename.cfg", {"expect_violation": True, "workers": 2}, ""),
         ("memo", "CacheCrash_memo.cfg", {"expect_violation": True, "workers": 2}, ""),
+        ("lossy", "CacheCrash_lossy.cfg", {"expect_violation": True, "workers": 2}, ""),
         ("inproc", "CacheCrash_inproc.cfg", {"workers": 2},
          "in-process histories without a crash (run, rerun, mutate, clear + changed function, ...): RightResults, "
          "NoRecompute, NoRaise; emits the histories"),
@@ -530,6 +543,14 @@ def model_check(ctx: Ctx, rep: Report) -> dict:
             rep.notes["pinned_commit_design_counterexample"] = (
                 f"TLC: NoRaise violated for Design=direct, Policy=trust ({res.distinct} states): crash between Open "
                 "and the last Write, the rerun raises")
+            continue
+        if name == "lossy":
+            if res.violated != "RightResults":
+                raise MachineryError("the wrong instance 'lossy file names' (sibling keys share one result file) should "
+                                     f"violate RightResults; TLC said {res.violated!r}")
+            rep.notes["lossy_names_counterexample"] = (
+                f"TLC: RightResults violated for LossyNames=TRUE ({res.distinct} states): the second sibling key hits the "
+                "first one's file and gets its result (Injective holds in every other instance)")
             continue
         if name == "memo":
             if res.violated != "RightResults":
@@ -562,6 +583,15 @@ def model_check(ctx: Ctx, rep: Report) -> dict:
     return emitted
 
 
+def with_keys(sizes: dict, rnd: random.Random, p: dict, fl: str, w: int, n_off, **kw) -> list[dict]:
+    """expand() under a seeded choice of the key menu (sizes: {(flavour, menu): file sizes})."""
+    menu = rnd.choice(sorted(m for f, m in sizes if f == fl))
+    out = expand(p, fl, w, sizes[(fl, menu)], rnd, n_off, **kw)
+    for sc in out:
+        sc["keys"] = menu
+    return out
+
+
 def build_scenarios(ctx: Ctx, emitted: dict, sizes: dict) -> list[dict]:
     rnd = random.Random(ctx.seed)
     q = ctx.quick
@@ -575,24 +605,24 @@ def build_scenarios(ctx: Ctx, emitted: dict, sizes: dict) -> list[dict]:
             for w in (0, 1):
                 exhaustive = (not q) and fl == "pmap"
                 n_off = None if exhaustive else (3 if q else 24)
-                scs += expand(p, fl, w, sizes[fl], rnd, n_off, both_points=True)
+                scs += with_keys(sizes, rnd, p, fl, w, n_off, both_points=True)
     # B. two crashes in a row
     pick = rnd.sample(double, 110) if q else double
     for p in pick:
         fl = rnd.choice(FLAVOURS)
-        scs += expand(p, fl, rnd.choice((0, 1)), sizes[fl], rnd, 1)
+        scs += with_keys(sizes, rnd, p, fl, rnd.choice((0, 1)), 1)
     # C. pools of 2 (and 3) workers: every global crash state
     par = emitted["par"]
     pick = rnd.sample(par, 220) if q else par
     for p in pick:
         for fl in ([rnd.choice(FLAVOURS)] if q else FLAVOURS):
-            scs += expand(p, fl, 2, sizes[fl], rnd, 1 if q else 3)
+            scs += with_keys(sizes, rnd, p, fl, 2, 1 if q else 3)
     if not q:
         for name, w, n in (("par3", 3, 900), ("par2x", 2, 700)):
             ps = emitted[name]
             for p in rnd.sample(ps, min(n, len(ps))):
                 fl = rnd.choice(FLAVOURS)
-                scs += expand(p, fl, w, sizes[fl], rnd, 1)
+                scs += with_keys(sizes, rnd, p, fl, w, 1)
     seen, out = set(), []
     for sc in scs:
         key = scenario_key(sc)
@@ -626,47 +656,67 @@ def run(ctx: Ctx) -> int:
     # ---- transparency on clean runs, reference results, file sizes ------------------------------------------
     nk = 3
     refs, sizes = {}, {}
+    combos = [(fl, m) for fl in FLAVOURS for m in MENUS[fl]] + [("pmap", "equal-str")]
+    firsts = ck.lanes(clean_run, [{"flavour": fl, "keys": m, "nk": nk, "w": 0, "dir": str(ctx.work / "clean" / f"{fl}_{m}_ref")}
+                                  for fl, m in combos], ctx.work, tag="ref")
+    trace_items = []
+    for (fl, m), first in zip(combos, firsts):
+        rep.evaluations += 1
+        rep.replayed += 1
+        if first["bad"]:
+            scen = {"flavour": fl, "keys": m, "w": 0, "nk": nk, "crashes": [], "l": 2, "clean": True}
+            rep.mismatch(scen, first["bad"], classify_clean(scen, first["bad"]))
+            if "uncached" in first and m != "equal-str":
+                # the key set stays in use (its uncached reference exists): the scenarios over it are judged too
+                refs[(fl, m)], sizes[(fl, m)] = first["uncached"], first.get("sizes")
+            continue
+        refs[(fl, m)], sizes[(fl, m)] = first["uncached"], first["sizes"]
+        trace_items.append((f"clean/{fl}/{m}/{nk}/0", nk, nk, first["trace"]))
+    sizes.pop(("pmap", "equal-str"), None)
+    if any(not sizes.get((fl, MENUS[fl][0])) for fl in FLAVOURS):
+        return rep.finish()            # not even the plain key set works: nothing else can be judged
+    for (fl, m) in list(sizes):
+        if not sizes[(fl, m)]:
+            sizes[(fl, m)] = sizes[(fl, MENUS[fl][0])]
+    rnd_c = random.Random(ctx.seed + 3)
     clean_jobs = []
     for fl in FLAVOURS:
-        first = clean_run({"flavour": fl, "nk": nk, "w": 0, "dir": str(ctx.work / "clean" / f"{fl}_ref")})
-        if first["bad"]:
-            rep.mismatch({"flavour": fl, "w": 0, "crashes": [], "l": 2}, first["bad"], None)
-            return rep.finish()
-        refs[fl], sizes[fl] = first["uncached"], first["sizes"]
+        usable = sorted(m for f, m in sizes if f == fl)
         for n in (2, 3, 5):
             for w in (0, 1, 2, 3, 16):
                 if (n, w) != (nk, 0):
-                    clean_jobs.append({"flavour": fl, "nk": n, "w": w, "dir": str(ctx.work / "clean" / f"{fl}_{n}_{w}"),
-                                       "reference": refs[fl] if n == nk else None})
-    rep.notes["result_file_sizes"] = sizes
+                    m = rnd_c.choice(usable)
+                    clean_jobs.append({"flavour": fl, "keys": m, "nk": n, "w": w, "dir": str(ctx.work / "clean" / f"{fl}_{n}_{w}"),
+                                       "reference": refs[(fl, m)] if n == nk else None})
+    rep.notes["result_file_sizes"] = {f"{fl}/{m}": v for (fl, m), v in sizes.items()}
     cleans = ck.lanes(clean_run, clean_jobs, ctx.work, tag="clean")
-    trace_items = []
     for j, c in zip(clean_jobs, cleans):
         rep.evaluations += 1
         rep.replayed += 1
         if c["bad"]:
-            rep.mismatch({"flavour": c["flavour"], "w": c["w"], "nk": c["nk"], "crashes": [], "l": 2, "clean": True}, c["bad"], None)
+            scen = {"flavour": c["flavour"], "keys": c["keys"], "w": c["w"], "nk": c["nk"], "crashes": [], "l": 2, "clean": True}
+            rep.mismatch(scen, c["bad"], classify_clean(scen, c["bad"]))
         elif c["nk"] == nk:
-            trace_items.append((f"clean/{c['flavour']}/{c['nk']}/{c['w']}", c["nk"], c["nk"], c["trace"]))
+            trace_items.append((f"clean/{c['flavour']}/{c['keys']}/{c['nk']}/{c['w']}", c["nk"], c["nk"], c["trace"]))
 
     # ---- spec -> code: fault injection ---------------------------------------------------------------------
     scs = build_scenarios(ctx, emitted, sizes)
     for sc in scs:
-        sc["reference"] = refs[sc["flavour"]] if sc["nk"] == nk else None
-    need_ref = sorted({(sc["flavour"], sc["nk"]) for sc in scs if sc["reference"] is None})
-    for fl, n in need_ref:
-        c = clean_run({"flavour": fl, "nk": n, "w": 0, "dir": str(ctx.work / "clean" / f"{fl}_ref{n}")})
+        sc["reference"] = refs[(sc["flavour"], sc["keys"])] if sc["nk"] == nk else None
+    need_ref = sorted({(sc["flavour"], sc["keys"], sc["nk"]) for sc in scs if sc["reference"] is None})
+    for fl, m, n in need_ref:
+        c = clean_run({"flavour": fl, "keys": m, "nk": n, "w": 0, "dir": str(ctx.work / "clean" / f"{fl}_{m}_ref{n}")})
         if c["bad"]:
             raise MachineryError(f"reference run failed: {c['bad']}")
         for sc in scs:
-            if (sc["flavour"], sc["nk"]) == (fl, n):
+            if (sc["flavour"], sc["keys"], sc["nk"]) == (fl, m, n):
                 sc["reference"] = c["uncached"]
                 # sizes of this key count may differ from the 3-key reference: offsets were drawn inside the 3-key
                 # sizes; clamp
                 for offs in sc["offsets"]:
                     for k in list(offs):
                         offs[k] = max(1, min(offs[k], c["sizes"][int(k) - 1] - 1))
-    psc = inproc_scenarios(ctx, emitted["inproc"])
+    psc = [p for p in inproc_scenarios(ctx, emitted["inproc"]) if (p["flavour"], p["keys"]) in sizes]
     if ctx.quick:      # the canonical history in every mode and flavour, plus a seeded sample of the others
         rnd_p = random.Random(ctx.seed + 7)
         canon = [p for p in psc if p["ops"] in (["run", "rerun", "clear", "run", "rerun"],
@@ -702,7 +752,7 @@ def run(ctx: Ctx) -> int:
             failed[sc["id"]] = r["detail"]
     rep.notes["in_process_histories"] = len(psc)
     for sc in scs[:: max(1, len(scs) // 4)][:4]:
-        rep.sample({k: sc[k] for k in ("flavour", "w", "nk", "crashes", "offsets", "points")})
+        rep.sample({k: sc[k] for k in ("flavour", "keys", "w", "nk", "crashes", "offsets", "points")})
     rep.notes.update({"scenarios": len(scs), "unrealised_discarded": unreal, "mid_write_cuts_realised": cuts,
                       "stage_not_passed_fallbacks": fallback,
                       "advisory_leftover_non_key_files_seen_after_crashes": other,
@@ -727,8 +777,8 @@ def run(ctx: Ctx) -> int:
     for tid, _nk, _sw, evs in trace_items:
         acc = tv["verdict"].get(tid, False)
         sc = by_id.get(tid)
-        scen = ({k: sc[k] for k in ("flavour", "w", "nk", "l", "crashes", "offsets", "points")} if sc
-                else {"inproc": True, "crashes": [], "l": 2, **{k: by_pid[tid][k] for k in ("flavour", "nk", "ops", "modes", "steps")}}
+        scen = ({k: sc[k] for k in ("flavour", "keys", "w", "nk", "l", "crashes", "offsets", "points")} if sc
+                else {"inproc": True, "crashes": [], "l": 2, **{k: by_pid[tid][k] for k in ("flavour", "keys", "nk", "ops", "modes", "steps")}}
                 if tid in by_pid else {"clean": tid, "crashes": [], "l": 2})
         if tid in failed:
             if acc:
@@ -780,7 +830,7 @@ def replay(ctx: Ctx, doc: dict) -> int:
             return 1
         print("conforms")
         return 0
-    ref = clean_run({"flavour": sc["flavour"], "nk": sc["nk"], "w": 0, "dir": str(ctx.work / "ref")})
+    ref = clean_run({"flavour": sc["flavour"], "keys": sc.get("keys"), "nk": sc["nk"], "w": 0, "dir": str(ctx.work / "ref")})
     if ref["bad"]:
         print(json.dumps(ref["bad"], indent=1, default=str))
         print("VIOLATION property=C19 replay=(given)")
